@@ -1,5 +1,7 @@
 import Engeom.Props.C14
 import Engeom.Props.C14T
+import Mathlib.Order.Basic
+import Mathlib.Order.Defs.LinearOrder
 /-
   C14 — "Add, Remove and Keep behave as union, difference and intersection with the faces satisfying the
   criterion" stated about the REGENERATED bodies of `TriangleFilter::mutate` and `mutate_pass_list`
@@ -52,10 +54,14 @@ theorem keep_nothing_selects_nothing (indices : List Nat) : GenRs.mutate_pass_li
 the given direction when the face has a normal — `Vector::angle` depends on the DIRECTION of its arguments only, which
 is why the fragment takes the angle, not the vectors) -/
 
+section Facing
+variable {α : Type} [LinearOrder α] [Add α] [Sub α] [Mul α] [Div α] [Neg α]
+  [OfNat α 0] [OfNat α 1] [OfNat α 2] [Scalar α]
+
 /-- a face passes exactly when it has a normal and the angle between that normal and the direction is strictly below the
     limit: a face without a normal never passes, and the verdict is a function of that ANGLE alone (so it cannot depend
-    on the length of the direction vector the caller gives) -/
-theorem facing_iff (n : Option ℝ) (limit : ℝ) :
+    on the length of the direction vector the caller gives).  Over any linearly ordered scalar type. -/
+theorem facing_iff (n : Option α) (limit : α) :
     GenRs.facing_predicate n limit = true ↔ ∃ a, n = some a ∧ a < limit := by
   unfold GenRs.facing_predicate
   cases n with
@@ -63,10 +69,11 @@ theorem facing_iff (n : Option ℝ) (limit : ℝ) :
   | some a => simp
 
 /-- a wider limit never loses a face -/
-theorem facing_monotone (n : Option ℝ) {l l' : ℝ} (h : l ≤ l') (hp : GenRs.facing_predicate n l = true) :
+theorem facing_monotone (n : Option α) {l l' : α} (h : l ≤ l') (hp : GenRs.facing_predicate n l = true) :
     GenRs.facing_predicate n l' = true := by
   rw [facing_iff] at hp ⊢
   obtain ⟨a, e, ha⟩ := hp
   exact ⟨a, e, lt_of_lt_of_le ha h⟩
+end Facing
 
 end C14U
